@@ -21,6 +21,7 @@ checks = {
  "C06": ("gate", "symbolic interpretation of the sparse-gate blueprints (assigned wire makes the gate polynomial vanish as a rational function), coefficient fast-path equivalence, must-pass rules on solveR1C / run, sibling agreement", "3.3, 3.4, 4/C06"),
  "C09": ("codec", "writer/reader item-sequence agreement extracted from SSA, struct-field coverage of encoders, must-pass of Precompute on decode, gate calldata codec agreement, sibling agreement", "3.3, 4/C09"),
  "C07": ("walk", "schema-walk ordering (public pass before secret pass through one walker), visibility-conflict test ordering, witness accessor purity (no receiver writes), witness codec sequence and vector type-switch exhaustiveness", "3.10, 4/C07"),
+ "C20": ("randflow", "provenance of blinding: flow-insensitive backward slices from each blinded proof element to SetRandom receivers (element-wise model of batch scalar multiplication), in-place randomiser writes, must-pass of the commitment mask hint, sibling agreement", "3.9, 4/C20"),
  "C11": ("determinism", "map-iteration order-sensitivity classification + package-level state and nondeterminism-source reachability over the compile-time call graph", "3.7, 4/C11"),
 }
 texts = {
@@ -38,6 +39,7 @@ texts = {
  "C06": "Decides, by symbolic interpretation of the source, that every accepting path of each sparse-gate Solve assigns a value satisfying the gate identically or checks the gate, that the gate codecs agree, that the solver's special-coefficient fast paths equal the table path, that solveR1C returns nil only after comparing or computing, and that run checks that all wires are assigned. Does not decide level scheduling, hint results, or the R1C division formulas.",
  "C09": "Decides that every writer and its reader encode and decode the same fields in the same order, that every struct field is encoded (or recomputed on decode), that the verifying-key decoder always recomputes its cached pairing, and that gate calldata codecs agree. Does not decide byte-level encoder behaviour, CBOR limits, or functional equivalence of decoded systems.",
  "C07": "Decides that compile and witness paths enumerate leaves through the same walker, public pass first, that the tag-conflict test is effective, that witness read accessors are pure, that the binary witness writer and reader agree and that every vector type is handled everywhere. Does not decide arbitrary struct shapes, value conversion or JSON values.",
+ "C20": "Decides that each blinded proof element depends on fresh SetRandom values (Groth16: Ar and Bs on different scalars, Krs on both; PLONK: blinding polynomials, BSB22 random entries, quotient randomisers written in place) and that every Commit creates its own mask. Does not decide the quality of the randomness nor that values are not overwritten later (flow-insensitive).",
  "C03": "Decides the structural reasons why Prove terminates: no prover stage can wait forever once another failed, each stage channel is closed exactly once on the success path, the wait-for graph is acyclic, goroutines always signal, Solve errors propagate. It does not decide that honest proofs verify (algebra) nor domain sizing.",
  "C10": "Decides that nothing reachable from Solve/Prove/Verify writes memory owned by the shared compiled system, keys, blueprints or caller-owned option slices, that blueprint state is reset before each run and registries are lock-guarded. Reports the lookup-blueprint cache as a known finding. It does not decide equality of results across schedules.",
  "C11": "Decides the absence of the enumerated nondeterminism sources in compile-time code: order-sensitive effects under map iteration, package-level mutable state, clocks/randomness/goroutine order. It does not decide byte equality across processes in general.",
@@ -45,7 +47,6 @@ texts = {
 }
 na = {
  "C15": "equality of two hash functions over all message lengths and contents is a value-level property selected by runtime lengths; no dataflow/typestate/effect/table-agreement rule is a genuine necessary condition beyond what every test vector already exercises (DESIGN.md 4/C15)",
- "C20": "not yet implemented in this round",
 }
 import importlib.util
 ov = os.path.join(here, 'manifest_table.py')
